@@ -425,7 +425,7 @@ func (v *visitor) checkFunc(fn reflect.Type, method bool, node ast.Node, name st
 			in = fn.In(i + offset)
 		}
 
-		if isIntegerOrArithmeticOperation(arg) {
+		if isIntegerOrArithmeticOperation(arg) && isInteger(t) && isNumber(in) {
 			t = in
 			setTypeForIntegers(arg, t)
 		}
